@@ -270,6 +270,7 @@ class Inliner(object):
         for _ in range(MAX_DEPTH):
             caller_names = _names(node)
             self._tail = node.body[-1] if node.body else None
+            self._root = node
             new_body, ch = self.block(fn, node.body, caller_names)
             if not ch:
                 break
@@ -324,6 +325,12 @@ class Inliner(object):
             t = self.target(fn, s.iter)
             if t is not None and t[0].is_generator:
                 return self.inline_generator(fn, s, s.iter, t, caller_names)
+        # for x in helper(...): BODY    with helper a sub-generator: every `yield e` of the helper becomes `x = e; BODY`
+        if isinstance(s, ast.For) and isinstance(s.iter, ast.Call) and not s.orelse and isinstance(s.target, ast.Name) and \
+                not any(isinstance(x, (ast.Break, ast.Continue, ast.Return)) for b in s.body for x in ast.walk(b)):
+            t = self.target(fn, s.iter)
+            if t is not None and t[0].is_generator:
+                return self.inline_generator_loop(fn, s, t, caller_names)
         if isinstance(s, ast.Expr) and isinstance(s.value, ast.YieldFrom) and isinstance(s.value.value, ast.Call):
             t = self.target(fn, s.value.value)
             if t is not None and t[0].is_generator:
@@ -381,7 +388,15 @@ class Inliner(object):
             pre, body = self.body_of(g, mapping, caller_names)
             whole = (isinstance(s, ast.Expr) and s.value is call)
             if whole:
-                conv, _ = _retify(body, None, s)
+                try:
+                    conv, _ = _retify(body, None, s)
+                except _NoInline:
+                    if not self._in_tail(s):
+                        raise
+                    # tail position: the helper's returns end the caller as well (values are dropped)
+                    conv = body
+                    for r in [x for b in conv for x in ast.walk(b) if isinstance(x, ast.Return)]:
+                        r.value = None
                 self.inlined_fns.add(g.fq)
                 return pre + conv
             if isinstance(s, ast.Return) and s.value is call:
@@ -435,6 +450,24 @@ class Inliner(object):
             return pre + conv + [new_s]
         return None
 
+    def _in_tail(self, s):
+        """is statement s the last thing the function does on every path through it (only with / if / try-finally
+        frames between it and the end of the function body)?"""
+        def last_of(stmts):
+            if not stmts:
+                return False
+            l = stmts[-1]
+            if l is s:
+                return True
+            if isinstance(l, ast.With):
+                return last_of(l.body)
+            if isinstance(l, ast.If):
+                return last_of(l.body) or last_of(l.orelse)
+            if isinstance(l, ast.Try) and not l.orelse:
+                return last_of(l.body)
+            return False
+        return last_of(self._root.body)
+
     def inline_with(self, fn, s, t, caller_names):
         g, bound = t
         call = s.items[0].context_expr
@@ -445,12 +478,20 @@ class Inliner(object):
             raise _NoInline('context manager with %d yields' % len(yields))
         y = yields[0]
         v = s.items[0].optional_vars
+        # `yield f` with f a helper local, `as v` a plain name: let the helper use the caller's name directly
+        if isinstance(v, ast.Name) and isinstance(y.value, ast.Name) and y.value.id != v.id and \
+                y.value.id not in (caller_names - {v.id}) and \
+                not any(isinstance(x, ast.Name) and x.id == v.id for b in body for x in ast.walk(b)):
+            ren = _Subst({}, {y.value.id: v.id})
+            body = [ren.visit(b) for b in body]
+            yields = [x for b in body for x in ast.walk(b) if isinstance(x, (ast.Yield, ast.YieldFrom))]
+            y = yields[0]
 
         def splice(stmts):
             out = []
             for st in stmts:
                 if isinstance(st, ast.Expr) and st.value is y:
-                    if v is not None and y.value is not None:
+                    if v is not None and y.value is not None and norm(v) != norm(y.value):
                         a = ast.Assign(targets=[copy.deepcopy(v)], value=y.value)
                         out.append(ast.fix_missing_locations(ast.copy_location(a, st)))
                     out.extend(s.body)
@@ -468,6 +509,40 @@ class Inliner(object):
             return out
         self.inlined_fns.add(g.fq)
         return pre + splice(body)
+
+    def inline_generator_loop(self, fn, s, t, caller_names):
+        g, bound = t
+        mapping = self.bind(g, bound, s.iter)
+        pre, body = self.body_of(g, mapping, caller_names)
+        if any(isinstance(x, ast.YieldFrom) for b in body for x in ast.walk(b)):
+            raise _NoInline('yield from in sub-generator')
+        rets = [x for b in body for x in ast.walk(b) if isinstance(x, ast.Return)]
+        if rets:
+            raise _NoInline('sub-generator with return')
+        tgt = s.target.id
+
+        def repl(stmts):
+            out = []
+            for st in stmts:
+                if isinstance(st, ast.Expr) and isinstance(st.value, ast.Yield):
+                    val = st.value.value if st.value.value is not None else ast.Constant(value=None)
+                    a = ast.Assign(targets=[ast.Name(id=tgt, ctx=ast.Store())], value=val)
+                    out.append(ast.fix_missing_locations(ast.copy_location(a, st)))
+                    out.extend(copy.deepcopy(b) for b in s.body)
+                    continue
+                if any(isinstance(x, ast.Yield) for x in ast.walk(st)) and not isinstance(st, (ast.For, ast.While, ast.If, ast.Try, ast.With)):
+                    raise _NoInline('yield used as an expression')
+                for field in ('body', 'orelse', 'finalbody'):
+                    blk = getattr(st, field, None)
+                    if isinstance(blk, list) and blk and isinstance(blk[0], ast.stmt):
+                        setattr(st, field, repl(blk))
+                if isinstance(st, ast.Try):
+                    for h in st.handlers:
+                        h.body = repl(h.body)
+                out.append(st)
+            return out
+        self.inlined_fns.add(g.fq)
+        return pre + repl(body)
 
     def inline_generator(self, fn, s, call, t, caller_names):
         g, bound = t
